@@ -446,6 +446,14 @@ def _vnorm(v):
         return str(int(v))
     if isinstance(v, float) and v.is_integer():
         return str(int(v))
+    if isinstance(v, str):
+        # the reader hands some numbers back as text: '12.0' is 12
+        try:
+            f = float(v)
+            if f.is_integer():
+                return str(int(f))
+        except ValueError:
+            pass
     return str(v)
 
 
